@@ -345,12 +345,89 @@ def mix0_factory(quick, seed):
     return h, judge
 
 
-HARNESSES = {"index": index_factory, "mix": mix_factory, "mix0": mix0_factory}
+# rank-2 arrays: dense cotangents may arrive Fortran-ordered (x.T uses), sparse ones index every axis with integers / integer arrays
+W2 = onp.array([[0.7, -1.3, 2.1], [0.4, 0.9, -0.5]])
+TERMS2 = {
+    # name: (source (scalar-valued), sparse?, gradient as a function of a (2,3))
+    "S_pair": ("np.sum(a[[0, 1], [1, 2]] * onp.array([2.0, 3.0]))", True, lambda a: _scatter([(0, 1, 2.0), (1, 2, 3.0)])),
+    "S_rep": ("np.sum(a[[0, 0, 1], [2, 2, 0]])", True, lambda a: _scatter([(0, 2, 2.0), (1, 0, 1.0)])),
+    "S_elem": ("a[1, 1] * a[1, 1]", True, lambda a: _scatter([(1, 1, 2 * a[1, 1])])),
+    "S_neg": ("a[-1, [0, -1]][1] * 4.0", True, lambda a: _scatter([(1, 2, 4.0)])),
+    "S_row": ("np.sum(a[0] * onp.array([1.0, 2.0, 3.0]))", True, lambda a: _scatter([(0, 0, 1.0), (0, 1, 2.0), (0, 2, 3.0)])),
+    "D_T": ("np.sum(a.T * W2.T)", False, lambda a: W2),
+    "D_transpose_sin": ("np.sum(np.sin(np.transpose(a)))", False, lambda a: onp.cos(a)),
+    "D_w": ("np.sum(W2 * a)", False, lambda a: W2),
+    "D_sq": ("np.sum(a * a)", False, lambda a: 2 * a),
+}
+
+
+def _scatter(items):
+    g = onp.zeros((2, 3))
+    for i, j, v in items:
+        g[i, j] += v
+    return g
+
+
+def mix2_factory(quick, seed):
+    L = lib()
+    ag, np = L["ag"], L["np"]
+    kmax = 3 if quick else 4
+    a0 = onp.array([[0.4, 1.1, -0.6], [0.8, -0.2, 1.5]]) + 0.01 * (seed % 9)
+    ns = dict(np=np, onp=onp, W2=W2)
+
+    def h(ch):
+        k = ch.choose("nuses", list(range(1, kmax + 1)))
+        names = [ch.choose("use%d" % i, sorted(TERMS2)) for i in range(k)]
+        assoc = ch.choose("assoc", ["left", "right"] if k > 2 else ["left"])
+        layout = ch.choose("input_layout", ["C", "F"])
+        parts = ["(%s)" % TERMS2[t][0] for t in names]
+        if assoc == "left":
+            src = parts[0]
+            for p_ in parts[1:]:
+                src = "(%s + %s)" % (src, p_)
+        else:
+            src = parts[-1]
+            for p_ in reversed(parts[:-1]):
+                src = "(%s + %s)" % (p_, src)
+        f = eval("lambda a: " + src, ns)
+        x = onp.asfortranarray(a0) if layout == "F" else a0.copy()
+        x.flags.writeable = False
+        obs = {}
+        with warnings.catch_warnings():
+            warnings.simplefilter("ignore")
+            try:
+                obs["rev"] = onp.asarray(ag.grad(f)(x))
+                obs["fwd"] = onp.array([[float(ag.make_jvp(f)(x)(_scatter([(i, j, 1.0)]))[1]) for j in range(3)] for i in range(2)])
+            except Exception as e:
+                obs["exc"] = "%s: %s" % (type(e).__name__, str(e)[:100])
+        want = sum(TERMS2[t][2](a0) for t in names)
+        return names, assoc, layout, src, want, obs
+
+    def judge(ch, out):
+        names, assoc, layout, src, want, obs = out
+        nsparse = sum(1 for t in names if TERMS2[t][1])
+        feats = dict(output="rank2", nsparse=nsparse, ndense=len(names) - nsparse, first=("sparse" if TERMS2[names[0]][1] else "dense"), assoc=assoc, layout=layout)
+        res = dict(v=[], nontrivial=bool(nsparse and nsparse < len(names)) or nsparse >= 2, outcome=tuple(onp.round(want, 6).reshape(-1)), counts={},
+                   sample=dict(choices=list(ch.choices), program="lambda a: " + src, sparse_uses=nsparse, dense_uses=len(names) - nsparse))
+        repro = "import autograd, autograd.numpy as np, numpy as onp\nW2 = onp.array(%r)\nf = lambda a: %s\nprint(autograd.grad(f)(onp.array(%r)))" % (W2.tolist(), src, a0.tolist())
+        V = lambda mode, kind_, got, w: res["v"].append(violation(PROP, "mix2", "-", mode, kind_, feats, ch.choices, dict(program=src), got, w, repro))
+        if "exc" in obs:
+            V("rev+fwd", "raised", obs["exc"], None)
+            return res
+        for mode in ("rev", "fwd"):
+            if obs[mode].shape != want.shape or not onp.allclose(obs[mode], want, rtol=1e-12, atol=1e-12):
+                V(mode, "wrong-value", obs[mode].tolist(), want.tolist())
+        return res
+
+    return h, judge
+
+
+HARNESSES = {"index": index_factory, "mix": mix_factory, "mix0": mix0_factory, "mix2": mix2_factory}
 
 
 def run(ctx):
     rep = Report("exploration")
-    run_harnesses(ctx, rep, __name__, ["index", "mix", "mix0"], depth=3)
+    run_harnesses(ctx, rep, __name__, ["index", "mix", "mix0", "mix2"], depth=3)
     lines = sorted(int(k.split(":")[1]) for k in rep.cov["per_harness"]["mix"]["counts"] if k.startswith("line:"))
     import dis
     core = lib()["core"]
